@@ -604,4 +604,221 @@ theorem expSum_filter_eq_mass (sel : DP → Bool) (d : AList DP ℝ) :
 
 end Det
 
+/-! ### derivations: `reduce_derivations` is a fold over the derivation -/
+section Deriv
+
+theorem foldlO_append {β γ : Type} (f : β → γ → Option β) (b : β) (l1 l2 : List γ) :
+    foldlO f b (l1 ++ l2) = (foldlO f b l1).bind (fun b' => foldlO f b' l2) := by
+  induction l1 generalizing b with
+  | nil => simp [foldlO]
+  | cons x xs ih =>
+    simp only [List.cons_append, foldlO]
+    cases f b x with
+    | none => simp
+    | some b' => simp [ih]
+
+/-- result of `reduceDet` expressed with the derivation -/
+def viaDeriv {β : Type} (f : β → NT → DP → Option β) (v : β)
+    (d : Option (List (NT × DP) × List NT × NT)) : Option (β × List NT × NT) :=
+  match d with
+  | none => none
+  | some (l, info, next) =>
+    match foldlO (fun b (sp : NT × DP) => f b sp.1 sp.2) v l with
+    | none => none
+    | some b => some (b, info, next)
+
+mutual
+  theorem reduceDet_eq {β : Type} (rules : AList NT (AList DP (List NT))) (f : β → NT → DP → Option β) :
+      ∀ (t : Prog) (v : β) (start : NT) (info : List NT),
+        reduceDet rules f t v start info = viaDeriv f v (derivDet rules t start info)
+    | .node P args, v, start, info => by
+      simp only [reduceDet, derivDet]
+      cases hd : deriveDet rules info start P with
+      | none => simp [viaDeriv]
+      | some r =>
+        obtain ⟨info1, next⟩ := r
+        simp only []
+        cases hf : f v start P with
+        | none =>
+          cases hda : derivDetArgs rules args info1 next with
+          | none => simp [viaDeriv]
+          | some r2 => obtain ⟨l, i2, n2⟩ := r2; simp [viaDeriv, foldlO, hf]
+        | some v1 =>
+          simp only []
+          rw [reduceDetArgs_eq rules f args v1 info1 next]
+          cases hda : derivDetArgs rules args info1 next with
+          | none => simp [viaDeriv]
+          | some r2 => obtain ⟨l, i2, n2⟩ := r2; simp [viaDeriv, foldlO, hf]
+  theorem reduceDetArgs_eq {β : Type} (rules : AList NT (AList DP (List NT))) (f : β → NT → DP → Option β) :
+      ∀ (args : List Prog) (v : β) (info : List NT) (next : NT),
+        reduceDetArgs rules f args v info next = viaDeriv f v (derivDetArgs rules args info next)
+    | [], v, info, next => by simp [reduceDetArgs, derivDetArgs, viaDeriv, foldlO]
+    | a :: as, v, info, next => by
+      simp only [reduceDetArgs, derivDetArgs]
+      rw [reduceDet_eq rules f a v next info]
+      cases hd : derivDet rules a next info with
+      | none => simp [viaDeriv]
+      | some r =>
+        obtain ⟨l1, i1, n1⟩ := r
+        simp only [viaDeriv]
+        cases hf : foldlO (fun b (sp : NT × DP) => f b sp.1 sp.2) v l1 with
+        | none =>
+          cases hda : derivDetArgs rules as i1 n1 with
+          | none => simp
+          | some r2 => obtain ⟨l2, i2, n2⟩ := r2; simp [foldlO_append, hf]
+        | some v1 =>
+          simp only []
+          rw [reduceDetArgs_eq rules f as v1 i1 n1]
+          cases hda : derivDetArgs rules as i1 n1 with
+          | none => simp [viaDeriv]
+          | some r2 => obtain ⟨l2, i2, n2⟩ := r2; simp [viaDeriv, foldlO_append, hf]
+end
+
+end Deriv
+
+/-! ### consistency of `log_probability` with the converted grammar (deterministic layer) -/
+section Consistent
+
+theorem tagDet_toProb (tags : AList NT (AList DP ℝ)) (S : NT) (P : DP) :
+    tagDet (toProbDet tags) S P = (tagDet tags S P).map Real.exp := by
+  unfold tagDet toProbDet
+  have h := lookup_map_val (fun (d : AList DP ℝ) => d.map (fun z => (z.1, (ExpLog.exp z.2 : ℝ)))) S tags
+  rw [h]
+  cases AList.lookup S tags with
+  | none => rfl
+  | some d =>
+    simp only [Option.map_some]
+    exact lookup_map_val (fun t : ℝ => (ExpLog.exp t : ℝ)) P d
+
+theorem fold_add_mul (tags : AList NT (AList DP ℝ)) :
+    ∀ (l : List (NT × DP)) (a r : ℝ),
+      foldlO (fun cur (sp : NT × DP) => addTagDet tags cur sp.1 sp.2) a l = some r →
+      foldlO (fun cur (sp : NT × DP) => mulTagDet (toProbDet tags) cur sp.1 sp.2) (Real.exp a) l
+        = some (Real.exp r) := by
+  intro l
+  induction l with
+  | nil => intro a r h; simp [foldlO] at h ⊢; rw [h]
+  | cons sp rest ih =>
+    intro a r h
+    simp only [foldlO, addTagDet, mulTagDet] at h ⊢
+    rw [tagDet_toProb]
+    cases ht : tagDet tags sp.1 sp.2 with
+    | none => simp [ht] at h
+    | some w =>
+      simp only [ht, Option.map_some] at h ⊢
+      have := ih (a + w) r h
+      rwa [Real.exp_add] at this
+
+theorem consistent_det (rules : AList NT (AList DP (List NT))) (start : NT) (tags : AList NT (AList DP ℝ))
+    (t : Prog) (lp : ℝ) (h : logProbabilityDet rules start tags t = some lp) :
+    derivWeightDet rules start (toProbDet tags) t = some (Real.exp lp) := by
+  unfold logProbabilityDet at h
+  rw [reduceDet_eq] at h
+  unfold derivWeightDet
+  cases hd : derivDet rules t start [] with
+  | none => simp [hd, viaDeriv] at h
+  | some d =>
+    obtain ⟨l, i, n⟩ := d
+    simp only [hd, viaDeriv] at h
+    cases hf : foldlO (fun b (sp : NT × DP) => addTagDet tags b sp.1 sp.2) (ExpLog.ofNat 0) l with
+    | none => rw [hf] at h; simp at h
+    | some r =>
+      rw [hf] at h
+      simp only [Option.some.injEq] at h
+      subst h
+      have := fold_add_mul tags l _ _ hf
+      simpa using this
+
+end Consistent
+
+/-! ### encode -/
+section Encode
+
+theorem indicator_length (n : ℕ) (ps : List ℕ) : (indicator n ps).length = n := by
+  simp [indicator]
+
+theorem indicator_nil (n : ℕ) : indicator n [] = List.replicate n 0 := by
+  apply List.ext_getElem
+  · simp [indicator]
+  · intro i h1 h2; simp [indicator]
+
+theorem setOne_indicator (n : ℕ) (ps : List ℕ) (i : ℕ) (out : List ℕ)
+    (h : setOne (indicator n ps) i = some out) : out = indicator n (ps ++ [i]) ∧ i < n := by
+  unfold setOne at h
+  rw [indicator_length] at h
+  by_cases hi : i < n
+  · simp only [hi, if_true, Option.some.injEq] at h
+    subst h
+    refine ⟨?_, hi⟩
+    apply List.ext_getElem
+    · simp [indicator]
+    · intro j h1 h2
+      simp only [indicator, List.getElem_set, List.getElem_map, List.getElem_range, List.mem_append,
+        List.mem_singleton]
+      by_cases hij : i = j
+      · simp [hij]
+      · have hji : ¬ j = i := fun h => hij h.symm
+        simp [hij, hji]
+  · simp [hi] at h
+
+theorem encode_fold (L : Layer) (n : ℕ) :
+    ∀ (l : List (NT × DP)) (ps : List ℕ) (out : List ℕ),
+      foldlO (fun o (sp : NT × DP) => encStep L o sp.1 sp.2) (indicator n ps) l = some out →
+      out = indicator n (ps ++ positionsOf L l) ∧ ∀ i ∈ positionsOf L l, i < n := by
+  intro l
+  induction l with
+  | nil => intro ps out h; simp [foldlO] at h; subst h; simp [positionsOf]
+  | cons sp rest ih =>
+    intro ps out h
+    simp only [foldlO] at h
+    by_cases hk : sp.2.kind = .prim
+    · simp only [encStep, hk, if_true] at h
+      cases hp : posOf L sp.1 sp.2 with
+      | none => simp [hp] at h
+      | some i =>
+        simp only [hp] at h
+        cases hs : setOne (indicator n ps) i with
+        | none => simp [hs] at h
+        | some o1 =>
+          simp only [hs] at h
+          obtain ⟨ho1, hi⟩ := setOne_indicator n ps i o1 hs
+          subst ho1
+          obtain ⟨r1, r2⟩ := ih _ _ h
+          have hpos : positionsOf L (sp :: rest) = i :: positionsOf L rest := by
+            simp [positionsOf, List.filterMap_cons, hk, hp]
+          rw [hpos]
+          refine ⟨by rw [r1]; simp, ?_⟩
+          intro j hj
+          rcases List.mem_cons.mp hj with h' | h'
+          · subst h'; exact hi
+          · exact r2 j h'
+    · simp only [encStep, hk, if_false] at h
+      obtain ⟨r1, r2⟩ := ih _ _ h
+      have hpos : positionsOf L (sp :: rest) = positionsOf L rest := by
+        simp [positionsOf, List.filterMap_cons, hk]
+      rw [hpos]; exact ⟨r1, r2⟩
+
+theorem encode_det (L : Layer) (rules : AList NT (AList DP (List NT))) (start : NT) (t : Prog)
+    (out : List ℕ) (h : encodeDet L rules start t = some out) :
+    ∃ d i n, derivDet rules t start [] = some (d, i, n)
+      ∧ out = indicator L.outputSize (positionsOf L d)
+      ∧ ∀ p ∈ positionsOf L d, p < L.outputSize := by
+  unfold encodeDet at h
+  rw [reduceDet_eq] at h
+  cases hd : derivDet rules t start [] with
+  | none => simp [hd, viaDeriv] at h
+  | some d =>
+    obtain ⟨l, i, n⟩ := d
+    simp only [hd, viaDeriv, ← indicator_nil] at h
+    cases hf : foldlO (fun b (sp : NT × DP) => encStep L b sp.1 sp.2) (indicator L.outputSize []) l with
+    | none => rw [hf] at h; simp at h
+    | some r =>
+      rw [hf] at h
+      simp only [Option.some.injEq] at h
+      subst h
+      obtain ⟨r1, r2⟩ := encode_fold L L.outputSize l [] _ hf
+      exact ⟨l, i, n, rfl, by simpa using r1, r2⟩
+
+end Encode
+
 end PS.Predictor
